@@ -272,6 +272,14 @@ func (c *Ctx) FailAt(idx int64, name string, input any, sig, detail string) {
 	c.res.Violations = append(c.res.Violations, v)
 }
 
+// Eval counts one evaluation made inside a case (a case that checks many
+// inputs of its own, e.g. every address against one policy configuration).
+func (c *Ctx) Eval() {
+	c.mu.Lock()
+	c.res.Evals++
+	c.mu.Unlock()
+}
+
 // Count increments a histogram bucket.
 func (c *Ctx) Count(key string) { c.CountN(key, 1) }
 
